@@ -632,7 +632,7 @@ def _write_nb_files(d, nbs, wts, N):
     return fn, fw
 
 
-def _gen_system(rng, trial, lattice=None, minT=1):
+def _gen_system(rng, trial, lattice=None, minT=1, shear=False):
     """seeded 2-D trajectory + neighbour lists + weights: orthogonal / triclinic cells, all periodicity masks, T = 1..3,
     coordination 1..7, weights of both signs"""
     import numpy as np
@@ -661,7 +661,18 @@ def _gen_system(rng, trial, lattice=None, minT=1):
             wt.append([float(x) for x in w])
         nbs.append(nb)
         wts.append(wt)
-    return dict(T=T, N=N, H=H, L=L, ppp=ppp, pos=pos, nbs=nbs, wts=wts)
+    out = dict(T=T, N=N, H=H, L=L, ppp=ppp, pos=pos, nbs=nbs, wts=wts)
+    if shear and T >= 2:
+        # sheared trajectory: the tilt factor changes from frame to frame, the box lengths (which __init__ asserts constant) do not
+        Hs = []
+        for s in range(T):
+            Hf = np.diag(L)
+            Hf[1, 0] = rng.uniform(-0.45, 0.45) * L[0]
+            Hs.append(Hf)
+        out["Hs"] = Hs
+        out["H"] = Hs[0]
+        out["pos"] = [rng.uniform(-0.2, 1.2, size=(N, 2)) @ Hs[s] for s in range(T)]
+    return out
 
 
 def _snapshots(sysd, timestep0=0, dstep=100):
@@ -675,7 +686,7 @@ def _snapshots(sysd, timestep0=0, dstep=100):
         snaps.append(RUm.SingleSnapshot(timestep=timestep0 + s * dstep, nparticle=sysd["N"], particle_type=np.ones(sysd["N"], dtype=int),
                                         positions=np.array(sysd["pos"][s], dtype=float), boxlength=np.array(L, dtype=float),
                                         boxbounds=np.column_stack([np.zeros(2), L]), realbounds=np.column_stack([np.zeros(2), L]),
-                                        hmatrix=np.array(sysd["H"], dtype=float)))
+                                        hmatrix=np.array(sysd["Hs"][s] if "Hs" in sysd else sysd["H"], dtype=float)))
     return RUm.Snapshots(nsnapshots=sysd["T"], snapshots=snaps)
 
 
@@ -686,10 +697,10 @@ def psi_reference(sysd, l, weighted, Nmax=None):
     import math
 
     import numpy as np
-    H = np.array(sysd["H"], dtype=float)
-    Hinv = np.linalg.inv(H)
     out = np.zeros((sysd["T"], sysd["N"]), dtype=complex)
     for s in range(sysd["T"]):
+        H = np.array(sysd["Hs"][s] if "Hs" in sysd else sysd["H"], dtype=float)       # the cell of THIS frame
+        Hinv = np.linalg.inv(H)
         pos = np.array(sysd["pos"][s], dtype=float)
         for i in range(sysd["N"]):
             acc = 0j
@@ -781,7 +792,8 @@ def _replay_boo(which, case, clause, model, seed):
     weighted_cases = [case.startswith("weighted")] if which in ("lthorder", "init") else [False, True]
     with tempfile.TemporaryDirectory(prefix="pyvc-c10-") as tmp:
         for trial in range(14):
-            sysd = _gen_system(rng, trial, minT=1 if which in ("lthorder", "spatial_corr") else 2)
+            sysd = _gen_system(rng, trial, minT=(2 if (which in ("lthorder", "init") and trial % 4 == 3) else 1) if which in ("lthorder", "spatial_corr") else 2,
+                               shear=(which in ("lthorder", "init") and trial % 4 == 3))
             l = int(rng.integers(1, 13))
             for weighted in weighted_cases:
                 out_phi = (tmp + f"/phi{trial}.npy") if (which == "lthorder" and case.endswith("/file")) else ""
